@@ -190,6 +190,9 @@ def run_coord(W, cfg):
         other[0, 0] = 0
         lt.zernike_coordinates(other)
         W.mod('zernike').zernike(other, 4, normalize=False)
+    if len(sup) >= 2:
+        # ... and the same mask with an explicit shift and rotation first: the default evaluation afterwards is still the default one
+        lt.zernike_coordinates(vals, shift=(0.5, -0.25), rotate=30)
     rho, theta = lt.zernike_coordinates(vals)
     # centroid of the support (every supported sample counts once: the mask enters only through its support)
     cr = Fraction(sum(r for r, c in sup), len(sup))
